@@ -296,6 +296,10 @@ def rule_inv_unsafe(ctx):
         for g in table['module_groups']:
             if root.startswith(g) or root.startswith('<' + g) or root.startswith('<&mut ' + g):
                 return g
+        from .roles import _FALLBACK, named as _nm
+        for k_ in _FALLBACK:
+            if _nm(ctx, k_) == root:
+                return _FALLBACK[k_]      # reviewed under the name the role had when it was reviewed
         return root
     c = Counter(group_of(norm(u['owner'])) for u in ctx.facts['unsafe_blocks'])
     for g, n in sorted(c.items()):
@@ -381,7 +385,10 @@ def rule_ptr_guarded_call(ctx):
         for (op, line), gs in sorted(per_site.items()):
             n += 1
             ok = all(gs)
-            key = '%s|%s' % (prog.bodies[c].root or c, op.split('::')[-1])
+            root_ = prog.bodies[c].root or c
+            from .roles import _FALLBACK, named as _nm
+            root_ = next((_FALLBACK[k_] for k_ in _FALLBACK if _nm(ctx, k_) == root_), root_)
+            key = '%s|%s' % (root_, op.split('::')[-1])
             exc = exceptions.get(key)
             r.instance(caller=c, operation=op.split('::')[-1], paths=len(gs), guarded_on_all=ok, exception=exc['reason'] if (exc and not ok) else None)
             if not ok and not exc:
